@@ -24,7 +24,7 @@ func mkBoard(name, class string, c4 byte, grp bool) board {
 	}
 	t[4] = c4
 	copy(t[5:], "\xa1\xb7x")
-	return board{n, t, grp}
+	return board{n, t, grp, 0, 0}
 }
 
 // names without two that are equal up to case; "" is a vacated slot (may repeat).
@@ -62,6 +62,18 @@ func uniq(l []string) []string {
 		if !seen[s] {
 			seen[s] = true
 			out = append(out, s)
+		}
+	}
+	return out
+}
+
+func uniqInts(l []int) []int {
+	seen := map[int]bool{}
+	var out []int
+	for _, v := range l {
+		if !seen[v] {
+			seen[v] = true
+			out = append(out, v)
 		}
 	}
 	return out
@@ -204,6 +216,30 @@ func battery(bs []board, level int) {
 			}
 		}
 	}
+	// the class listings: slot order, paged by next_bid; children of every class
+	for _, n := range sizes {
+		do(fmt.Sprintf("fwalk %d", n))
+	}
+	nb := len(bs)
+	starts := uniqInts([]int{-1, 0, 1, 2, nb - 1, nb, nb + 1, maxBoard, maxBoard + 1, 1 + r.Intn(nb+1)})
+	for _, b := range starts {
+		do(fmt.Sprintf("fpage %d %d", b, 1+r.Intn(3)))
+	}
+	cs := []int{0, 1, 2, 3, nb, maxBoard + 1}
+	if level >= 2 {
+		for c := 4; c < nb; c++ {
+			cs = append(cs, c)
+		}
+	} else {
+		for i := 0; i < 6; i++ {
+			cs = append(cs, 1+r.Intn(nb+1))
+		}
+	}
+	for _, c := range uniqInts(cs) {
+		do(fmt.Sprintf("children %d name", c))
+		do(fmt.Sprintf("children %d class", c))
+		do(fmt.Sprintf("children %d name", c)) // the same request again must answer the same
+	}
 	do("awalk asc 2 -") // the empty keyword lists everything
 	do("awalk desc 2 -")
 	do("ac asc -")
@@ -252,12 +288,29 @@ func decorate(names []string, class5 bool) []board {
 		if r.Intn(2) == 0 { // sticky: several boards per class, so that page boundaries fall inside a class
 			cl = classes[r.Intn(len(classes))]
 		}
-		bs = append(bs, mkBoard(n, cl, c4, n != "" && r.Intn(6) == 0))
+		bs = append(bs, mkBoard(n, cl, c4, r.Intn(4) == 0))
 	}
 	// random slot order
 	for i := len(bs) - 1; i > 0; i-- {
 		j := r.Intn(i + 1)
 		bs[i], bs[j] = bs[j], bs[i]
+	}
+	// every board belongs to a class: the root (1), one of the first slots, or none; never to itself
+	for i := range bs {
+		g := 0
+		switch r.Intn(4) {
+		case 0:
+			g = 1
+		case 1, 2:
+			g = 1 + r.Intn(min(len(bs), 3))
+		}
+		if g == i+1 {
+			g = 0
+		}
+		bs[i].gid = g
+		if r.Intn(8) == 0 {
+			bs[i].cc = r.Intn(4)
+		}
 	}
 	return bs
 }
@@ -333,7 +386,7 @@ func fixtureBoards() []board {
 			break
 		}
 		out = append(out, board{append([]byte{}, h.Brdname[:]...), append([]byte{}, h.Title[:title8]...),
-			h.BrdAttr&(ptttype.BRD_GROUPBOARD|ptttype.BRD_SYMBOLIC) != 0})
+			h.BrdAttr&(ptttype.BRD_GROUPBOARD|ptttype.BRD_SYMBOLIC) != 0, int(h.Gid), int(h.ChildCount)})
 	}
 	return out
 }
@@ -343,6 +396,10 @@ func fixtureBoards() []board {
 func generate() {
 	r := run.R
 	thorough := run.Thorough()
+
+	// 0a. class boards in every slot, the last one included; sub-classes under a class (smallest tables first, so that
+	// the first failure of a run is a short history)
+	classTables()
 
 	// 0. the repository's fixture (F6 was found on it: FindBoardIdxByName("0", asc))
 	if fx := fixtureBoards(); len(fx) > 0 {
@@ -401,7 +458,7 @@ func generate() {
 func cur2boards() []board {
 	var bs []board
 	for i := 0; i < cur.n; i++ {
-		bs = append(bs, board{cur.name[i], cur.title[i][:title8], cur.grp[i]})
+		bs = append(bs, board{cur.name[i], cur.title[i][:title8], cur.grp[i], cur.gid[i], cur.cc[i]})
 	}
 	return bs
 }
@@ -505,12 +562,86 @@ func paddedClasses() {
 	}
 }
 
+// classTables: which slots hold a class (group board) — every subset for up to 5 slots, so that the class sits in the
+// first, a middle and the LAST slot of the table, next to vacated slots and vacated classes — listed through
+// LoadFullClassBoards with every page size and every start bid; and classes with 0..8 sub-classes for LoadClassBoards.
+func classTables() {
+	names := []string{"ca", "cb", "cc", "cd", "ce"}
+	for n := 0; n <= 5; n++ {
+		for mask := 0; mask < 1<<uint(n); mask++ {
+			for _, vac := range []int{-1, 0, n - 1} {
+				if vac >= n || (vac == 0 && n == 1 && mask == 0) {
+					continue
+				}
+				var bs []board
+				for i := 0; i < n; i++ {
+					nm := names[i]
+					if i == vac {
+						nm = "" // a vacated slot, possibly still flagged as a class
+					}
+					b := mkBoard(nm, "aaaa", ' ', mask&(1<<uint(i)) != 0)
+					if i > 0 {
+						b.gid = 1
+					}
+					bs = append(bs, b)
+				}
+				resetTable(bs)
+				for p := 1; p <= n+1; p++ {
+					do(fmt.Sprintf("fwalk %d", p))
+				}
+				for b := 0; b <= n+1; b++ {
+					do(fmt.Sprintf("fpage %d 1", b))
+					do(fmt.Sprintf("fpage %d 2", b))
+				}
+				do("children 1 name")
+				do("children 1 class")
+				if n >= 2 {
+					do("children 2 name")
+				}
+			}
+		}
+	}
+	// a class with k sub-classes (and some ordinary children), stored ChildCount 0 or k
+	for k := 0; k <= 8; k++ {
+		for _, cc := range []int{0, k} {
+			bs := []board{mkBoard("root", "aaaa", ' ', true), mkBoard("cls", "aaaa", ' ', true)}
+			bs[1].gid = 1
+			bs[1].cc = cc
+			for i := 0; i < k; i++ {
+				b := mkBoard(fmt.Sprintf("sub%d", (i*5)%9), "aaab", ' ', true)
+				b.gid = 2
+				bs = append(bs, b)
+				o := mkBoard(fmt.Sprintf("ord%d", i), "aaab", ' ', false)
+				o.gid = 2
+				bs = append(bs, o)
+			}
+			resetTable(bs)
+			do("children 2 name")
+			do("children 2 class")
+			do("children 1 name")
+			do("children 2 name") // again: the child links of the first call are in place
+			do("fwalk 3")
+		}
+	}
+	// a full table whose last slot is a class
+	var bs []board
+	for i := 0; i < maxBoard; i++ {
+		bs = append(bs, mkBoard(fmt.Sprintf("b%03d", i), "aaaa", ' ', i%7 == 0 || i == maxBoard-1))
+	}
+	resetTable(bs)
+	do("fwalk 1")
+	do("fwalk 4")
+	do(fmt.Sprintf("fpage %d 1", maxBoard))
+}
+
 func malformed() {
 	resetTable(plain("a", "ab", "b"))
 	for _, l := range []string{
 		"", "bid", "bid zz", "bid 6", "bid 61 62", "find", "find name up 61", "find name asc", "find name asc 6g", "find class asc 61",
 		"find class asc 61 zz", "find class sideways 61 61", "find title asc 61", "ac asc", "ac up 61", "ac asc 6", "page name asc 2", "page name asc x -",
 		"page name asc 2 61", "page name asc 2 61:62:63", "page title asc 2 -", "page name asc 2 zz:61", "apage asc 2 61", "apage asc 2 6 -",
+		"fwalk", "fwalk x", "fpage 1", "fpage x 1", "children 1", "children x name", "children 1 title", "fwalk 0", "fwalk -1", "fpage 1 0", "fpage 1 -1", "fpage 1 -2",
+		"reset 100 13 61000000000000000000000000:6161616120a1b778:0:x:0 0 0", "reset 100 13 61000000000000000000000000:6161616120a1b778:0:1 0 0",
 		"walk name asc", "walk name asc 1.5", "walk nam asc 1", "awalk asc 1", "awalk asc 1 6", "reset", "reset 100 13 zz - -",
 		"reset 100 13 61:62 - -", "reset x 13 - - -", "frobnicate 1 2",
 		// page sizes <= 0: nBoards+1 <= 0 (makeslice / summaries[-1]); 0 never advances
